@@ -335,6 +335,127 @@ func runC13(cx *CheckCtx) {
 	checkSingleDeployer(cx, sp)
 	checkStageOrder(cx, sp)
 	checkCacheInvalidation(cx, sp)
+	checkTxWindow(cx, sp)
+}
+
+// ---------- D8 shared transaction window ----------
+
+// checkTxWindow: committee members sign the same transaction only if they set
+// the same Nonce and ValidUntilBlock while their heights fall into the same
+// window. In every function that stores Transaction.ValidUntilBlock or
+// Transaction.Nonce, the stored values and the conditions that select them may
+// depend on a chain height (a uint32 obtained from a call) only through
+// height / constant or height − height % constant — the window index or start. A raw height anywhere else makes two
+// members of one window disagree for some height.
+func checkTxWindow(cx *CheckCtx, sp *ssa.Package) {
+	w := cx.W
+	n := 0
+	for _, fn := range allFuncs(sp) {
+		if fn.Blocks == nil {
+			continue
+		}
+		var stores []*ssa.Store
+		for _, b := range fn.Blocks {
+			for _, ins := range b.Instrs {
+				st, ok := ins.(*ssa.Store)
+				if !ok {
+					continue
+				}
+				if fa, ok := st.Addr.(*ssa.FieldAddr); ok {
+					if f := fieldName(fa.X.Type(), fa.Field); (f == "ValidUntilBlock" || f == "Nonce") && strings.HasSuffix(typeName(fa.X.Type()), "transaction.Transaction") {
+						stores = append(stores, st)
+					}
+				}
+			}
+		}
+		if len(stores) == 0 {
+			continue
+		}
+		// taint: raw heights. A height is the uint32 result of a call made in fn; the
+		// quotient by a constant is the window index and is clean; loads of the fields
+		// stored here carry the taint of what was stored.
+		taint := map[ssa.Value]bool{}
+		var tainted func(v ssa.Value, seen map[ssa.Value]bool) bool
+		tainted = func(v ssa.Value, seen map[ssa.Value]bool) bool {
+			if seen[v] {
+				return false
+			}
+			seen[v] = true
+			switch x := v.(type) {
+			case *ssa.Call:
+				if b, ok := x.Type().Underlying().(*types.Basic); ok && b.Kind() == types.Uint32 {
+					return true
+				}
+			case *ssa.BinOp:
+				if x.Op == token.QUO {
+					if _, isC := x.Y.(*ssa.Const); isC {
+						return false
+					}
+				}
+				if x.Op == token.SUB {
+					// h − h % constant: the height rounded down to the window start
+					if r, ok := x.Y.(*ssa.BinOp); ok && r.Op == token.REM && r.X == x.X {
+						if _, isC := r.Y.(*ssa.Const); isC {
+							return false
+						}
+					}
+				}
+				return tainted(x.X, seen) || tainted(x.Y, seen)
+			case *ssa.Convert:
+				return tainted(x.X, seen)
+			case *ssa.ChangeType:
+				return tainted(x.X, seen)
+			case *ssa.Phi:
+				for _, e := range x.Edges {
+					if tainted(e, seen) {
+						return true
+					}
+				}
+			case *ssa.UnOp:
+				if x.Op == token.MUL {
+					// a load of a field written in fn: the taint of any value stored there
+					if fa, ok := x.X.(*ssa.FieldAddr); ok {
+						for _, st := range stores {
+							if fa2 := st.Addr.(*ssa.FieldAddr); fa2.Field == fa.Field && fa2.X == fa.X && tainted(st.Val, seen) {
+								return true
+							}
+						}
+					}
+					return false
+				}
+				return tainted(x.X, seen)
+			}
+			return false
+		}
+		_ = taint
+		for _, st := range stores {
+			n++
+			f := fieldName(st.Addr.(*ssa.FieldAddr).X.Type(), st.Addr.(*ssa.FieldAddr).Field)
+			key := "deploy." + fn.Name() + "/" + f
+			bad := ""
+			if tainted(st.Val, map[ssa.Value]bool{}) {
+				bad = "the stored value depends on the raw height"
+			}
+			for _, b := range fn.Blocks {
+				if i, ok := b.Instrs[len(b.Instrs)-1].(*ssa.If); ok && b.Dominates(st.Block()) && b != st.Block() {
+					// only conditions that choose between different stores matter: the If has a side that avoids this store
+					if !(blockReaches(b.Succs[0], st.Block(), nil) && blockReaches(b.Succs[1], st.Block(), nil)) && tainted(i.Cond, map[ssa.Value]bool{}) {
+						bad = "the condition at " + blockPos(w, b) + " that selects the value depends on the raw height"
+					}
+				}
+			}
+			cx.decide(bad == "", "tx-window", key, "depends on the height only through height / constant (the window index)", "Transaction."+f+" is not a function of the height window alone: "+bad+"; two members whose heights fall into the same window build different transactions and their signatures never combine", w.pos(st.Pos()))
+		}
+	}
+	cx.count("tx_window_stores", n)
+	cx.floor("tx_window_stores", 2)
+}
+
+func typeName(t types.Type) string {
+	if p, ok := t.Underlying().(*types.Pointer); ok {
+		t = p.Elem()
+	}
+	return t.String()
 }
 
 // ---------- D5 codec ----------
